@@ -55,6 +55,8 @@ class Broker:
         self.log = None                                    # recorder log of the running incarnation
         self.journal = []                                  # survives incarnations
         self.committed_failures = 0                        # how many upcoming committed() calls fail
+        self.committed_fail_at = set()                     # indices (per incarnation) of committed() calls that fail
+        self.n_committed = 0
         self.fetch_failures = set()                        # indices (per incarnation) of assign() calls that fail
         self.n_assign = 0
 
@@ -149,6 +151,11 @@ class Consumer:
         return lo, hi
 
     def committed(self, tps, timeout=None):
+        k = self.b.n_committed
+        self.b.n_committed += 1
+        if k in self.b.committed_fail_at:
+            self.b.note('committed_failed')
+            raise KafkaException('transient failure fetching committed offsets (call %d)' % k)
         if self.b.committed_failures > 0:
             # transient broker trouble: the call may be retried
             self.b.committed_failures -= 1
